@@ -3,7 +3,7 @@
 (A) MC_FM: TLC explores all histories (length <= 3 quick / 4 thorough) of constructor calls in the
 implementation-shaped FormulaManager model (node table keyed by content, constant caches keyed by
 Python value equality) and checks OneObjectPerStructure, AccessorFidelity, TableInjective, CachesAgree.
-(B) TLC-enumerated / simulated call histories over the 93 documented spellings (incl. the infix / method routes) and normalisations
+(B) TLC-enumerated / simulated call histories over the 99 documented spellings (incl. the infix / method routes) and normalisations
 (FMCalls.tla) are replayed in fresh Environments, interleaved with unrelated constructions; identity
 classes and accessor read-back are logged after every call.  (C) TLC validates them against the
 denotations of FMCalls.tla (FMHistoryContract).  Cross-environment: TLC-generated terms (incl. custom
@@ -33,7 +33,8 @@ def make_calls(env):
         "Real(Fraction(1,2))": lambda: m.Real(Fraction(1, 2)), "Real(0.5)": lambda: m.Real(0.5),
         "Real((1,2))": lambda: m.Real((1, 2)), "Real((2,4))": lambda: m.Real((2, 4)),
         "BV(2,2)": lambda: m.BV(2, 2), "BV('10')": lambda: m.BV("10"), "BV('#b10')": lambda: m.BV("#b10"),
-        "SBV(-2,2)": lambda: m.SBV(-2, 2), "BV(2,3)": lambda: m.BV(2, 3),
+        "SBV(-2,2)": lambda: m.SBV(-2, 2), "SBV(-4,3)": lambda: m.SBV(-4, 3), "SBV(-1,1)": lambda: m.SBV(-1, 1), "SBV(3,3)": lambda: m.SBV(3, 3),
+        "SBV(-128,8)": lambda: m.SBV(-128, 8), "BV(128,8)": lambda: m.BV(128, 8), "SBV(-1,8)": lambda: m.SBV(-1, 8), "BV(2,3)": lambda: m.BV(2, 3),
         "String('a')": lambda: m.String("a"), "Bool(True)": lambda: m.Bool(True), "TRUE()": lambda: m.TRUE(),
         "Symbol(p)": lambda: m.Symbol("p"), "Symbol(x,INT)": lambda: m.Symbol("x", INT),
         "And(p,q)": lambda: m.And(p(), q()), "And([p,q])": lambda: m.And([p(), q()]), "And((p,q))": lambda: m.And((p(), q())),
@@ -143,7 +144,12 @@ def run(ck):
                     m.Plus(u, m.Int(k + 10), m.Times(u, m.Int(3)))
                     m.Real(Fraction(k + 3, 7))
                 res = calls[names[ci - 1]]()
-                obs.append({"term": array_sorted(term_io.export(res)), "same": [1 if res is o else 0 for o in results]})
+                ob = {"term": array_sorted(term_io.export(res)), "same": [1 if res is o else 0 for o in results]}
+                if res.is_bv_constant():
+                    # the derived accessors of a bit-vector constant are read back too
+                    ob["sg"] = int(res.bv_signed_value())
+                    ob["bin"] = [int(ch) for ch in res.bv_bin_str()]
+                obs.append(ob)
                 results.append(res)
             evs.append({"id": eid, "kind": "fm_hist", "calls": h, "obs": obs})
             if len(set(id(x) for x in results)) < len(results):
@@ -236,7 +242,7 @@ def run(ck):
     ck.sample({"calls": [names[c - 1] for c in evs[len(singles) + 3]["calls"]], "obs": evs[len(singles) + 3]["obs"]})
     ck.sample({"kind": "normalize", "src": evs[-1]["src"], "shared": evs[-1]["shared"]})
     ck.cov["exhaustive"] = not quick
-    ck.cov["rule"] = ("constructor-call histories over the 93 spellings/normalisations of FMCalls.tla: all singles, all ordered pairs "
+    ck.cov["rule"] = ("constructor-call histories over the 99 spellings/normalisations of FMCalls.tla: all singles, all ordered pairs "
                       "(every second pair in quick), TLC-simulated histories of length 7; each replayed in a fresh Environment, half of "
                       "them interleaved with unrelated constructions; + normalize() of TLC-generated terms into a second environment. "
                       "non-trivial = histories in which two calls returned the same object / distinct normalized terms")
